@@ -60,7 +60,7 @@ func init() {
 		RequiredProbes: []string{"reject.claim.escrow-underfunded", "claim.perturbed-rejected"}})
 
 	c02 := &l1Profile{Prop: "C02", Reimport: 2, Blocks: [2]int{12, 60}, MaxTx: 6, Periods: []time.Duration{time.Second, 2 * time.Second, 10 * time.Second}, Crash: 10, Byz: 8,
-		W:       map[string]int{"create": 4, "deposit": 14, "propose": 16, "delete": 8, "claim": 60, "updProposer": 1, "multi": 5},
+		W:       map[string]int{"create": 4, "deposit": 14, "propose": 16, "delete": 8, "claim": 60, "updProposer": 1, "multi": 5, "send": 4},
 		NonTriv: func(w *l1World) bool { return w.succ["claim"] >= 2 }}
 	core.Register(&core.Scenario{ID: "C02", Level: "exploration", Run: runL1(c02), Components: l1Components, Assumptions: l1Assume,
 		Rule: "seeded histories of propose / delete / re-propose (cumulative trees carrying earlier leaves) and claims of the same withdrawal by several submitters against every output that contains it, same block and across blocks, with crash between FinalizeBlock and Commit and block replay; oracle: per (bridge, withdrawal) at most one successful finalisation, Claimed query true exactly for paid withdrawals, ledger equality; non-trivial = >=2 successful claims",
@@ -68,7 +68,7 @@ func init() {
 		RequiredProbes: []string{"reject.claim.already-claimed"}})
 
 	c03 := &l1Profile{Prop: "C03", Reimport: 2, Blocks: [2]int{10, 50}, MaxTx: 8, Periods: []time.Duration{time.Second, 2 * time.Second, time.Hour}, Byz: 75,
-		W:       map[string]int{"create": 4, "deposit": 14, "propose": 16, "delete": 5, "claim": 70, "multi": 6},
+		W:       map[string]int{"create": 4, "deposit": 14, "propose": 16, "delete": 5, "claim": 70, "multi": 6, "send": 5},
 		NonTriv: func(w *l1World) bool { return w.succ["claim"] >= 1 && w.r.Probes["claim.perturbed-rejected"] >= 3 }}
 	core.Register(&core.Scenario{ID: "C03", Level: "exploration", Run: runL1(c03), Components: l1Components, Assumptions: l1Assume,
 		Rule: "every valid claim is also submitted under single- and double-field perturbations (20 mutators: bit flips, swaps, other bridge / output / sequence / denom, amount +-1, *2, +2^64, proof truncation / extension / permutation, inner node or leaf as sibling, empty proof) in all oracle states; oracle: an independent verifier (opsim/prover) decides admissibility, rejected claims leave all state unchanged; non-trivial = >=1 accepted claim and >=3 rejected perturbed claims",
